@@ -54,6 +54,20 @@ pub open spec fn only_failure_record(a: World, b: World, id: EventId) -> bool {
         || (b.processed.contains_key(id) && b.processed == a.processed.insert(id, b.processed[id]) && b.processed[id].state == ProcessedMessageState::Failed))
 }
 
+// C01 "commits ahead of their predecessors": the dedup record of an event that could not be decrypted when it
+// arrived (state Failed, no epoch: process_message step 2) -- it may simply belong to an epoch this member has
+// not reached yet -- and the predicate "the dedup step refuses this event without looking at it"
+pub open spec fn undecryptable_record(w: World, id: EventId, g: GroupId) -> bool {
+    w.processed.contains_key(id) && w.processed[id].state == ProcessedMessageState::Failed && w.processed[id].epoch is None && w.processed[id].mls_group_id == Some(g)
+}
+pub open spec fn blocked_by_dedup(w: World, id: EventId) -> bool {
+    w.processed.contains_key(id) && (w.processed[id].state == ProcessedMessageState::Failed || w.processed[id].state == ProcessedMessageState::EpochInvalidated)
+}
+// after the epoch of group g advanced, no event of g that was refused only because it could not be decrypted stays refused
+pub open spec fn epoch_advance_reopens_undecryptable(a: World, b: World, g: GroupId) -> bool {
+    forall|id: EventId| #[trigger] undecryptable_record(a, id, g) ==> !blocked_by_dedup(b, id)
+}
+
 // C04: what makes an application rumor acceptable
 pub open spec fn app_rumor_id_valid(a: ApplicationMessage) -> bool {
     let ru = rumor_of_json(a.bytes());
